@@ -45,6 +45,9 @@ rule("C16.k", "scale homogeneity of the bounds: wherever the scale range (min_sc
               "it is divided by norm_scale in the same product", floor=2)
 rule("C12.g", "values obtained from the same conversion helper get the same follow-up conversion: all ramp profiles returned by "
               "_convert_ramp are multiplied by the step length (conversion_factor) - power and heat, start and shutdown alike", floor=4)
+rule("C12.j", "the unit travels with the value: in a function that is given the frequency its input is expressed in (a parameter used as "
+              "old_freq / new_freq of a conversion call), every duration conversion in that function names that parameter - none falls "
+              "back to the default (main time unit)", floor=3)
 NEUTRAL = "a term that is only applied under a test of its own parameter is skipped exactly when it is zero (`p != 0`): a one-sided test " \
           "(`p > 0`) drops the term for the other sign, although the set-up applies the parameter for every value"
 rule("C05.m", "storage: " + NEUTRAL, floor=1)
@@ -67,7 +70,7 @@ def _prop_rule(fn):
     return "C07.n"
 
 
-@analysis("siblings", ["C07.n", "C02.f", "C19.f", "C07.o", "C09.f", "C07.p", "C11.h", "C03.g", "C07.t", "C04.g", "C05.m", "C06.l", "C02.h", "C12.g", "C07.y", "C19.l", "C16.k", "C07.v"])
+@analysis("siblings", ["C07.n", "C02.f", "C19.f", "C07.o", "C09.f", "C07.p", "C11.h", "C03.g", "C07.t", "C04.g", "C05.m", "C06.l", "C02.h", "C12.g", "C07.y", "C19.l", "C16.k", "C07.v", "C12.j"])
 def run(ctx):
     p = ctx.p
     # ================================================================= C07.n decided branches
@@ -600,6 +603,36 @@ def run(ctx):
                    "s / norm_scale base assets, so this bound is that of max_scale base assets instead of max_scale / norm_scale. With "
                    "norm_scale < 1 it cuts off dispatch the coupling rows allow (fixed scale 1.5, norm_scale 0.5: value 244.7 instead of 321.7)",
                    node=n)
+
+    # ================================================================= C12.j the unit travels with the value
+    CONV = {"convert_to_timegrid_freq": (("old_freq", 2),), "convert_time_unit": (("old_freq", 1), ("new_freq", 2))}
+    for fn in sorted(p.all_functions(), key=lambda f: f.qualname):
+        calls = [c for c in au.walk_local(fn.node, include_self=False) if isinstance(c, ast.Call) and au.method_name(c) in CONV]
+        if not calls:
+            continue
+
+        def unit_args(c):
+            out = []
+            for kw, pos in CONV[au.method_name(c)]:
+                a = au.kwarg(c, kw)
+                if a is None and len(c.args) > pos and not any(isinstance(x, ast.Starred) for x in c.args):
+                    a = c.args[pos]
+                if a is not None:
+                    out.append(a)
+            return out
+        given = {a.id for c in calls for a in unit_args(c) if isinstance(a, ast.Name) and fn.param(a.id) is not None}
+        if not given:
+            continue
+        for c in calls:
+            names = {x.id for a in unit_args(c) for x in au.walk_local(a) if isinstance(x, ast.Name)}
+            val = au.kwarg(c, "time_value") or au.kwarg(c, "value") or (c.args[0] if c.args else None)
+            if val is not None and any(isinstance(x, ast.Attribute) and au.base_name(x) == "self" for x in au.walk_local(val)):
+                continue        # an attribute of the asset itself (given in the main time unit by definition), not the function's input
+            ctx.ob("C12.j", fn, au.short(c, 90), bool(names & given),
+                   "%s is told the unit of its input (%s) and converts with it elsewhere, but this conversion does not name it: the value is read as "
+                   "if it were given in the main time unit of the grid. With a ramp frequency of 'h' on a 15-minute grid, 3 ramp points become 12 "
+                   "steps for main time unit 'h' but 1 for 'min' and 288 for 'd' - re-expressing the problem in another main time unit changes "
+                   "the result" % (fn.qualname, ", ".join(sorted(given))), node=c)
 
     # ================================================================= C12.g siblings from one conversion helper
     for fn in sorted(p.all_functions(), key=lambda f: f.qualname):
